@@ -233,7 +233,64 @@ impl Filter for ReentrantFilter {
     }
 }
 
+/// sets the new configuration from inside `append`, then fails: the error belongs to the record being
+/// processed, i.e. to the old configuration's error handler
+#[derive(Debug)]
+struct ReentrantFailing {
+    log: EvLog,
+    handle: Arc<Mutex<Option<Handle>>>,
+}
+
+impl Append for ReentrantFailing {
+    fn append(&self, record: &Record) -> anyhow::Result<()> {
+        self.log.lock().unwrap().push(Ev::Deliver(format!("{}", record.args()), "F".into()));
+        if let Some(h) = self.handle.lock().unwrap().as_ref() {
+            h.set_config(conf('B', &self.log));
+        }
+        anyhow::bail!("failing-after-swap")
+    }
+    fn flush(&self) {}
+}
+
+fn reentrant_error(rep: &mut Report) {
+    rep.add("evaluations", 1);
+    let case = json!({"reentrant": "failing appender, custom error handler"});
+    let (tx, rx) = std::sync::mpsc::channel();
+    std::thread::spawn(move || {
+        let log: EvLog = Arc::new(Mutex::new(vec![]));
+        let slot: Arc<Mutex<Option<Handle>>> = Arc::new(Mutex::new(None));
+        let cfg = Config::builder()
+            .appender(Appender::builder().build("F", Box::new(ReentrantFailing { log: log.clone(), handle: slot.clone() })))
+            .appender(Appender::builder().build("G", Box::new(Tagged { tag: "G".into(), log: log.clone(), fail: true })))
+            .logger(Logger::builder().additive(false).appenders(["F", "G"]).build("t", LevelFilter::Trace))
+            .build(Root::builder().build(LevelFilter::Off))
+            .unwrap();
+        let hlog = log.clone();
+        let logger = log4rs::Logger::new_with_err_handler(cfg, Box::new(move |e: &anyhow::Error| hlog.lock().unwrap().push(Ev::Handler(format!("{}", e)))));
+        *slot.lock().unwrap() = Some(logger.verif_handle());
+        let r = catch_panic(|| logger.log(&Record::builder().level(Level::Info).target("t").args(format_args!("first")).build()));
+        let evs = log.lock().unwrap().clone();
+        let _ = tx.send((r, evs));
+    });
+    match rx.recv_timeout(Duration::from_secs(10)) {
+        Err(_) => rep.violation("reentrant:deadlock", format!("{}: no return within 10 s", case), case),
+        Ok((Err(p), _)) => rep.violation(format!("reentrant:panic:{}", panic_site(&p)), p, case),
+        Ok((Ok(()), evs)) => {
+            let mut handled: Vec<String> = evs.iter().filter_map(|e| match e { Ev::Handler(m) => Some(m.clone()), _ => None }).collect();
+            handled.sort();
+            if handled != vec!["fail-G".to_string(), "failing-after-swap".to_string()] {
+                rep.violation(
+                    "reentrant:errors-not-handled-by-the-configuration-that-routed-the-record",
+                    format!("{}: the record was fanned out under the old configuration, whose error handler received {:?} instead of both appender errors; events {:?}", case, handled, evs),
+                    case,
+                );
+            }
+        }
+    }
+}
+
 fn reentrancy(rep: &mut Report) {
+    reentrant_error(rep);
     for (variant, position) in [("appender", 0usize), ("appender", 1), ("appender", 2), ("filter", 0), ("filter", 1)] {
         rep.add("evaluations", 1);
         let case = json!({"reentrant": variant, "position_in_fan_out": position});
@@ -324,6 +381,8 @@ fn rate_of(id: &str) -> Option<u64> {
 #[derive(Clone, Debug, PartialEq, Eq, Hash)]
 pub enum ROp {
     Write(&'static str),
+    /// the file is replaced by one with an *older* mtime (restore from backup, `cp -p`, clock step)
+    WriteOlder(&'static str),
     Touch,
     Delete,
     Poll,
@@ -353,7 +412,7 @@ pub struct ReloadSpec {
 fn rstep(s: &RState, op: &ROp) -> RState {
     let mut st = s.clone();
     match op {
-        ROp::Write(t) => {
+        ROp::Write(t) | ROp::WriteOlder(t) => {
             st.file = Some(t);
             st.mtime_changed = true;
         }
@@ -397,6 +456,7 @@ fn rinit() -> RState {
 fn rop_json(o: &ROp) -> Value {
     match o {
         ROp::Write(t) => json!({"write": t}),
+        ROp::WriteOlder(t) => json!({"write_older": t}),
         ROp::Touch => json!("touch"),
         ROp::Delete => json!("delete"),
         ROp::Poll => json!("poll"),
@@ -406,6 +466,9 @@ fn rop_json(o: &ROp) -> Value {
 fn rop_from_json(v: &Value) -> Option<ROp> {
     if let Some(t) = v.get("write").and_then(|t| t.as_str()) {
         return TEXTS.iter().find(|x| **x == t).map(|x| ROp::Write(x));
+    }
+    if let Some(t) = v.get("write_older").and_then(|t| t.as_str()) {
+        return TEXTS.iter().find(|x| **x == t).map(|x| ROp::WriteOlder(x));
     }
     match v.as_str()? {
         "touch" => Some(ROp::Touch),
@@ -427,6 +490,8 @@ impl HistSpec for ReloadSpec {
             return vec![]; // the rate was removed: the property does not say more; paths end here
         }
         let mut v: Vec<ROp> = TEXTS.iter().map(|t| ROp::Write(t)).collect();
+        v.push(ROp::WriteOlder("B"));
+        v.push(ROp::WriteOlder("A"));
         v.push(ROp::Touch);
         v.push(ROp::Delete);
         v.push(ROp::Poll);
@@ -527,6 +592,7 @@ pub fn child_reload(args: &[String]) -> i32 {
     let sb = Sandbox::new();
     let file = sb.path("log4rs.yaml");
     let mut clock = 1_700_000_000i64;
+    let mut older = 1_600_000_000i64;
     std::fs::write(&file, text_of("A")).unwrap();
     set_mtime(&file, clock);
     let stepper = Arc::new(Stepper { st: Mutex::new(StepState::default()), cv: Condvar::new() });
@@ -578,6 +644,12 @@ pub fn child_reload(args: &[String]) -> i32 {
                 clock += 10;
                 std::fs::write(&file, text_of(t)).unwrap();
                 set_mtime(&file, clock);
+            }
+            ROp::WriteOlder(t) => {
+                // strictly older than anything seen so far, and different from the remembered mtime
+                older -= 10;
+                std::fs::write(&file, text_of(t)).unwrap();
+                set_mtime(&file, older);
             }
             ROp::Touch => {
                 if file.exists() {
@@ -667,7 +739,7 @@ pub fn run(ctx: &Ctx) -> Report {
         rep.violation(v.signature, format!("file history {:?}: {}", v.path, v.detail), json!({"kind": "reloader", "path": v.path.iter().map(rop_json).collect::<Vec<_>>()}));
     }
     // the same without deduplication to a smaller depth: every history is replayed
-    let full_depth = ctx.tier.pick(5usize, 6usize);
+    let full_depth = ctx.tier.pick(4usize, 5usize);
     let spec2 = ReloadSpec { exe: ctx.exe.clone(), runs: Default::default(), dedup: false, serial: Default::default() };
     let (stats2, viols2) = hist::explore(&spec2, full_depth, ctx);
     rep.set("reloader_histories_without_dedup", stats2.transitions);
